@@ -457,7 +457,9 @@ theorem processCmd_Link (s : State) (av : List Name) (h : Link s) (hh : HostsLeg
     · rw [if_pos h1]; exact setpath_Link s args h
     rw [if_neg h1]; clear h1
     by_cases h1 : c = lit "settimeout"
-    · rw [if_pos h1]; unfold settimeout; split <;> exact h
+    · rw [if_pos h1]; unfold settimeout; split
+      · exact h
+      · simp only; split <;> exact h
     rw [if_neg h1]; clear h1
     by_cases h1 : c = lit "stat"
     · rw [if_pos h1]; exact Link_of_frame h (powerCmd_plugs _ _ _) (powerCmd_frame _ _ _).2
@@ -602,6 +604,8 @@ theorem reachable_inv (hostArgs failArgs : List Name) (now : Nat) (s0 : State)
   obtain ⟨d, e, _⟩ := session_Link bufs s0 a b c hb
   exact ⟨d, e, e.linked⟩
 
+
+
 /-! ### with legal plug names and list and map in step, `setplugs` and `setpath` always come back to the prompt -/
 
 theorem plugsAdd_legal (s : State) (p host : Name) (i : Nat) (par : Option Name) (hp : LegalName p) :
@@ -741,7 +745,7 @@ theorem processCmd_setpath (s : State) (args : List Name) : processCmd s (lit "s
 /-- **any line, from a reachable `Safe` state**: with list and map in step, a line that defines only legal plug names
     and has no 20-digit number in a range comes back to the prompt unless it is `quit` — `setplugs` and `setpath`
     included -/
-theorem step_cont (s : State) (buf : List Char) (hs : Safe s) (hl : Link s)
+theorem step_cont (s : State) (buf : List Char) (hs : Safe s) (ht : TimeoutOK s) (hl : Link s)
     (hleg : LegalSetplugs (argvCreate (cstr buf))) (hb : (step s buf).ctl ≠ bignum) :
     (step s buf).ctl = .cont ∨ ((step s buf).ctl = .exit 0 ∧ firstWord buf = some (lit "quit")) := by
   by_cases h1 : firstWord buf = some (lit "setplugs")
@@ -770,24 +774,22 @@ theorem step_cont (s : State) (buf : List Char) (hs : Safe s) (hl : Link s)
         rcases setpath_cont s args hl with h | h
         · exact h
         · exact absurd h hb
-    · exact step_safe s buf hs h1 h2 hb
+    · exact step_safe s buf hs ht h1 h2 hb
 
 /-! ### which lines can make a `Safe` state unsafe -/
 
 /-- the parts of the state `Safe` looks at -/
 def SameCfg (s s' : State) : Prop :=
-  s'.plugMap = s.plugMap ∧ s'.failHosts = s.failHosts ∧ s'.statpath = s.statpath ∧ s'.cmdTimeout = s.cmdTimeout ∧
-  s'.now = s.now
+  s'.plugMap = s.plugMap ∧ s'.failHosts = s.failHosts ∧ s'.statpath = s.statpath
 
-theorem SameCfg.refl (s : State) : SameCfg s s := ⟨rfl, rfl, rfl, rfl, rfl⟩
+theorem SameCfg.refl (s : State) : SameCfg s s := ⟨rfl, rfl, rfl⟩
 
 theorem Safe_of_SameCfg {s s' : State} (h : SameCfg s s') (hs : Safe s) : Safe s' := by
-  obtain ⟨h1, h2, h3, h4, h5⟩ := h
+  obtain ⟨h1, h2, h3⟩ := h
   have e1 : mCfg s' = mCfg s := by unfold mCfg hostFailing; rw [h1, h2]
   have e2 : allStatPaths s' = allStatPaths s := by unfold allStatPaths; rw [h1, h3]
-  have e3 : timeoutOverflow s' = timeoutOverflow s := by unfold timeoutOverflow; rw [h4, h5]
   unfold Safe at *
-  rw [e1, e2, e3]; exact hs
+  rw [e1, e2]; exact hs
 
 theorem dispatch_SameCfg (s : State) (cmd : Redfish.Cmd) (pre : List Name) (ts : List Nat) :
     SameCfg s (dispatch s cmd pre ts).st := by
@@ -796,7 +798,7 @@ theorem dispatch_SameCfg (s : State) (cmd : Redfish.Cmd) (pre : List Name) (ts :
   · exact SameCfg.refl s
   · simp only
     repeat' split
-    all_goals exact ⟨rfl, rfl, rfl, rfl, rfl⟩
+    all_goals exact ⟨rfl, rfl, rfl⟩
 
 theorem powerCmd_SameCfg (s : State) (cmd : Redfish.Cmd) (av : List Name) : SameCfg s (powerCmd s cmd av).st := by
   unfold powerCmd
@@ -814,16 +816,16 @@ theorem powerCmd_SameCfg (s : State) (cmd : Redfish.Cmd) (av : List Name) : Same
     · exact SameCfg.refl s
     · exact dispatch_SameCfg _ _ _ _
 
-/-- only `setplugs`, `setpath`, `setstatpath` and `settimeout` touch what `Safe` looks at -/
+/-- only `setplugs`, `setpath` and `setstatpath` touch what `Safe` looks at -/
 theorem processCmd_SameCfg (s : State) (av : List Name)
-    (h : av.head? ≠ some (lit "setplugs") ∧ av.head? ≠ some (lit "setpath") ∧ av.head? ≠ some (lit "setstatpath") ∧
-      av.head? ≠ some (lit "settimeout")) : SameCfg s (processCmd s av).st := by
-  obtain ⟨n1, n2, n3, n4⟩ := h
+    (h : av.head? ≠ some (lit "setplugs") ∧ av.head? ≠ some (lit "setpath") ∧ av.head? ≠ some (lit "setstatpath")) :
+    SameCfg s (processCmd s av).st := by
+  obtain ⟨n1, n2, n3⟩ := h
   unfold processCmd
   split
   · exact SameCfg.refl s
   · rename_i c args
-    simp only [List.head?_cons, ne_eq, Option.some.injEq] at n1 n2 n3 n4
+    simp only [List.head?_cons, ne_eq, Option.some.injEq] at n1 n2 n3
     by_cases h1 : c = lit "help"
     · rw [if_pos h1]; exact SameCfg.refl s
     rw [if_neg h1]; clear h1
@@ -835,19 +837,24 @@ theorem processCmd_SameCfg (s : State) (av : List Name)
       · exact SameCfg.refl s
       · split
         · exact SameCfg.refl s
-        · exact ⟨rfl, rfl, rfl, rfl, rfl⟩
+        · exact ⟨rfl, rfl, rfl⟩
     rw [if_neg h1]; clear h1
     by_cases h1 : c = lit "setheader"
-    · rw [if_pos h1]; exact ⟨rfl, rfl, rfl, rfl, rfl⟩
+    · rw [if_pos h1]; exact ⟨rfl, rfl, rfl⟩
     rw [if_neg h1]; clear h1
     rw [if_neg n3]
     by_cases h1 : c = lit "setonpath"
-    · rw [if_pos h1]; unfold setonpath; split <;> exact ⟨rfl, rfl, rfl, rfl, rfl⟩
+    · rw [if_pos h1]; unfold setonpath; split <;> exact ⟨rfl, rfl, rfl⟩
     rw [if_neg h1]; clear h1
     by_cases h1 : c = lit "setoffpath"
-    · rw [if_pos h1]; unfold setoffpath; split <;> exact ⟨rfl, rfl, rfl, rfl, rfl⟩
+    · rw [if_pos h1]; unfold setoffpath; split <;> exact ⟨rfl, rfl, rfl⟩
     rw [if_neg h1]; clear h1
-    rw [if_neg n1, if_neg n2, if_neg n4]
+    rw [if_neg n1, if_neg n2]
+    by_cases h1 : c = lit "settimeout"
+    · rw [if_pos h1]; unfold settimeout; split
+      · exact SameCfg.refl s
+      · simp only; split <;> exact ⟨rfl, rfl, rfl⟩
+    rw [if_neg h1]; clear h1
     by_cases h1 : c = lit "stat"
     · rw [if_pos h1]; exact powerCmd_SameCfg _ _ _
     rw [if_neg h1]; clear h1
@@ -858,12 +865,269 @@ theorem processCmd_SameCfg (s : State) (av : List Name)
     · rw [if_pos h1]; exact powerCmd_SameCfg _ _ _
     rw [if_neg h1]; exact SameCfg.refl s
 
-/-- a `Safe` state stays `Safe` under every line that is not `setplugs`, `setpath`, `setstatpath` or `settimeout`:
-    in particular under every `stat` / `on` / `off`, every unknown command, every malformed target expression -/
+/-- a `Safe` state stays `Safe` under every line that is not `setplugs`, `setpath` or `setstatpath`:
+    in particular under every `stat` / `on` / `off`, `settimeout`, unknown command, malformed target expression -/
 theorem step_Safe (s : State) (buf : List Char) (hs : Safe s)
     (h : firstWord buf ≠ some (lit "setplugs") ∧ firstWord buf ≠ some (lit "setpath") ∧
-      firstWord buf ≠ some (lit "setstatpath") ∧ firstWord buf ≠ some (lit "settimeout")) : Safe (step s buf).st :=
+      firstWord buf ≠ some (lit "setstatpath")) : Safe (step s buf).st :=
   Safe_of_SameCfg (processCmd_SameCfg s _ h) hs
+
+/-! ### the stored time-out always fits an `int` (repair 7f04ec7): `err_exit("cmd_timeout overflow")` is unreachable -/
+
+/-- `cmd_timeout` and the clock are the same -/
+def SameTime (s s' : State) : Prop := s'.cmdTimeout = s.cmdTimeout ∧ s'.now = s.now
+
+theorem SameTime.trans {a b c : State} (h1 : SameTime a b) (h2 : SameTime b c) : SameTime a c :=
+  ⟨h2.1.trans h1.1, h2.2.trans h1.2⟩
+
+theorem plugsAdd_time {s s' : State} {p host : Name} {i : Nat} {par : Option Name}
+    (ha : plugsAdd s p host i par = some s') : SameTime s s' := by
+  unfold plugsAdd at ha
+  simp only at ha
+  split at ha
+  · split at ha
+    · cases ha
+    · cases ha; exact ⟨rfl, rfl⟩
+  · cases ha; exact ⟨rfl, rfl⟩
+
+theorem foldl_plugsRemove_time (l : List Name) : ∀ (s : State), SameTime s (l.foldl plugsRemove s) := by
+  induction l with
+  | nil => intro s; exact ⟨rfl, rfl⟩
+  | cons n r ih => intro s; exact SameTime.trans (⟨rfl, rfl⟩ : SameTime s (plugsRemove s n)) (ih _)
+
+theorem removeInitialPlugs_time (s : State) : SameTime s (removeInitialPlugs s) := by
+  unfold removeInitialPlugs
+  split
+  · exact ⟨rfl, rfl⟩
+  · exact foldl_plugsRemove_time _ s
+
+theorem setupPlug_time {s s' : State} {p his : Name} {par : Option Name} (ha : setupPlug s p his par = .ok s') :
+    SameTime s s' := by
+  unfold setupPlug at ha
+  simp only at ha
+  split at ha
+  · cases ha
+  · split at ha
+    · cases ha
+    · split at ha
+      · cases ha
+      · rename_i s1 h1
+        cases ha
+        exact SameTime.trans (plugsAdd_time h1) ⟨rfl, rfl⟩
+
+theorem setplugsLoop_time (lplugs : Hostlist) (idx : Nat → Option Name) (parent : Option Name) :
+    ∀ (k i : Nat) (s : State), SameTime s (setplugsLoop lplugs idx parent k i s).st := by
+  intro k
+  induction k with
+  | zero => intro i s; exact ⟨rfl, rfl⟩
+  | succ k ih =>
+    intro i s
+    unfold setplugsLoop
+    split
+    · exact ⟨rfl, rfl⟩
+    · split
+      · exact ⟨rfl, rfl⟩
+      · split
+        · rename_i s' hs; exact SameTime.trans (setupPlug_time hs) (ih (i + 1) s')
+        · exact ⟨rfl, rfl⟩
+        · exact ⟨rfl, rfl⟩
+
+theorem setplugs_time (s : State) (av : List Name) : SameTime s (setplugs s av).st := by
+  have r := removeInitialPlugs_time s
+  unfold setplugs
+  split
+  · split
+    · exact ⟨rfl, rfl⟩
+    · split
+      · exact ⟨rfl, rfl⟩
+      · split
+        · exact ⟨rfl, rfl⟩
+        · simp only
+          split
+          · split
+            · split
+              · exact r
+              · exact SameTime.trans r (setplugsLoop_time _ _ _ _ _ _)
+            · exact r
+          · exact SameTime.trans r (setplugsLoop_time _ _ _ _ _ _)
+  · exact ⟨rfl, rfl⟩
+
+theorem setpathLoop_time (cmd path : Name) (post : Option Name) :
+    ∀ (l : List Name) (s : State), SameTime s (setpathLoop cmd path post l s).st := by
+  intro l
+  induction l with
+  | nil => intro s; exact ⟨rfl, rfl⟩
+  | cons n r ih =>
+    intro s
+    unfold setpathLoop
+    split
+    · exact ⟨rfl, rfl⟩
+    · split
+      · exact ⟨rfl, rfl⟩
+      · rename_i s' hs
+        have : SameTime s s' := by
+          unfold plugsUpdatePath at hs
+          split at hs
+          · cases hs
+          · cases hs; exact ⟨rfl, rfl⟩
+        exact SameTime.trans this (ih s')
+
+theorem setpath_time (s : State) (av : List Name) : SameTime s (setpath s av).st := by
+  unfold setpath
+  split
+  · split
+    · exact ⟨rfl, rfl⟩
+    · split
+      · exact ⟨rfl, rfl⟩
+      · split
+        · exact ⟨rfl, rfl⟩
+        · exact setpathLoop_time _ _ _ _ _
+  · exact ⟨rfl, rfl⟩
+
+theorem dispatch_time (s : State) (cmd : Redfish.Cmd) (pre : List Name) (ts : List Nat) :
+    SameTime s (dispatch s cmd pre ts).st := by
+  unfold dispatch
+  split
+  · exact ⟨rfl, rfl⟩
+  · simp only
+    repeat' split
+    all_goals exact ⟨rfl, rfl⟩
+
+theorem powerCmd_time (s : State) (cmd : Redfish.Cmd) (av : List Name) : SameTime s (powerCmd s cmd av).st := by
+  unfold powerCmd
+  split
+  · split
+    · exact ⟨rfl, rfl⟩
+    · split
+      · exact ⟨rfl, rfl⟩
+      · simp only
+        split
+        · exact ⟨rfl, rfl⟩
+        · exact dispatch_time _ _ _ _
+  · simp only
+    split
+    · exact ⟨rfl, rfl⟩
+    · exact dispatch_time _ _ _ _
+
+theorem TimeoutOK_of_SameTime {s s' : State} (h : SameTime s s') (ht : TimeoutOK s) : TimeoutOK s' := by
+  unfold TimeoutOK at *; rw [h.1, h.2]; exact ht
+
+theorem settimeout_TimeoutOK (s : State) (av : List Name) (ht : TimeoutOK s) : TimeoutOK (settimeout s av).st := by
+  unfold settimeout
+  split
+  · exact ht
+  · simp only
+    split
+    · exact ht
+    · rename_i hb
+      simp only [Bool.or_eq_true, bne_iff_ne, ne_eq, decide_eq_true_eq, not_or, Int.not_lt] at hb
+      exact ⟨hb.2, ht.2⟩
+
+/-- every piece of input keeps the stored time-out within `int` -/
+theorem processCmd_TimeoutOK (s : State) (av : List Name) (ht : TimeoutOK s) : TimeoutOK (processCmd s av).st := by
+  unfold processCmd
+  split
+  · exact ht
+  · rename_i c args
+    by_cases h1 : c = lit "help"
+    · rw [if_pos h1]; exact ht
+    rw [if_neg h1]; clear h1
+    by_cases h1 : c = lit "quit"
+    · rw [if_pos h1]; exact ht
+    rw [if_neg h1]; clear h1
+    by_cases h1 : c = lit "auth"
+    · rw [if_pos h1]; unfold auth; split
+      · exact ht
+      · split <;> exact ht
+    rw [if_neg h1]; clear h1
+    by_cases h1 : c = lit "setheader"
+    · rw [if_pos h1]; exact ht
+    rw [if_neg h1]; clear h1
+    by_cases h1 : c = lit "setstatpath"
+    · rw [if_pos h1]; exact ht
+    rw [if_neg h1]; clear h1
+    by_cases h1 : c = lit "setonpath"
+    · rw [if_pos h1]; unfold setonpath; split <;> exact ht
+    rw [if_neg h1]; clear h1
+    by_cases h1 : c = lit "setoffpath"
+    · rw [if_pos h1]; unfold setoffpath; split <;> exact ht
+    rw [if_neg h1]; clear h1
+    by_cases h1 : c = lit "setplugs"
+    · rw [if_pos h1]; exact TimeoutOK_of_SameTime (setplugs_time s args) ht
+    rw [if_neg h1]; clear h1
+    by_cases h1 : c = lit "setpath"
+    · rw [if_pos h1]; exact TimeoutOK_of_SameTime (setpath_time s args) ht
+    rw [if_neg h1]; clear h1
+    by_cases h1 : c = lit "settimeout"
+    · rw [if_pos h1]; exact settimeout_TimeoutOK s args ht
+    rw [if_neg h1]; clear h1
+    by_cases h1 : c = lit "stat"
+    · rw [if_pos h1]; exact TimeoutOK_of_SameTime (powerCmd_time _ _ _) ht
+    rw [if_neg h1]; clear h1
+    by_cases h1 : c = lit "on"
+    · rw [if_pos h1]; exact TimeoutOK_of_SameTime (powerCmd_time _ _ _) ht
+    rw [if_neg h1]; clear h1
+    by_cases h1 : c = lit "off"
+    · rw [if_pos h1]; exact TimeoutOK_of_SameTime (powerCmd_time _ _ _) ht
+    rw [if_neg h1]; exact ht
+
+theorem step_TimeoutOK (s : State) (buf : List Char) (ht : TimeoutOK s) : TimeoutOK (step s buf).st :=
+  processCmd_TimeoutOK s _ ht
+
+theorem session_TimeoutOK : ∀ (bufs : List (List Char)) (s : State), TimeoutOK s → TimeoutOK (session s bufs).1
+  | [], _, h => h
+  | b :: rest, s, h => by
+    have a := step_TimeoutOK s b h
+    unfold session
+    simp only
+    split
+    · exact session_TimeoutOK rest _ a
+    · exact a
+
+theorem setupHosts_time (l : List (Name × Nat)) : ∀ (st s1 : State),
+    l.foldl (fun acc e => match acc with | none => none | some st => plugsAdd st e.1 e.1 e.2 none) (some st) = some s1 →
+      SameTime st s1 := by
+  induction l with
+  | nil => intro st s1 h; simp at h; subst h; exact ⟨rfl, rfl⟩
+  | cons e r ih =>
+    intro st s1 h
+    simp only [List.foldl_cons] at h
+    cases ha : plugsAdd st e.1 e.1 e.2 none with
+    | none =>
+      rw [ha] at h
+      have : ∀ (l : List (Name × Nat)), l.foldl (fun (acc : Option State) e => match acc with | none => none | some st => plugsAdd st e.1 e.1 e.2 none) none = none := by
+        intro l; induction l with
+        | nil => rfl
+        | cons x xs ihx => simp only [List.foldl_cons]; exact ihx
+      rw [this] at h; cases h
+    | some st' =>
+      rw [ha] at h
+      exact SameTime.trans (plugsAdd_time ha) (ih st' s1 h)
+
+/-- the helper starts with `cmd_timeout = 60`: `TimeoutOK` holds at start whenever the clock is not within 2^31 seconds
+    of the end of `long` -/
+theorem init_TimeoutOK (hostArgs failArgs : List Name) (now : Nat) (s : State) (h : init hostArgs failArgs now = some s)
+    (hn : (now : Int) ≤ LONG_MAX - INT_MAX) : TimeoutOK s := by
+  unfold init at h
+  split at h
+  · cases h
+  · simp only at h
+    split at h
+    · cases h
+    · split at h
+      · cases h
+      · rename_i s1 hs1
+        cases h
+        unfold setupHosts at hs1
+        obtain ⟨a, b⟩ := setupHosts_time _ _ _ hs1
+        simp only at a b
+        exact ⟨by show s1.cmdTimeout ≤ INT_MAX; rw [a]; decide, by show (s1.now : Int) ≤ _; rw [b]; exact hn⟩
+
+/-- reachable states, whatever the lines (no proviso on plug names), the stored time-out fits an `int` -/
+theorem reachable_TimeoutOK (hostArgs failArgs : List Name) (now : Nat) (s0 : State)
+    (h0 : init hostArgs failArgs now = some s0) (hn : (now : Int) ≤ LONG_MAX - INT_MAX) (bufs : List (List Char)) :
+    TimeoutOK (session s0 bufs).1 :=
+  session_TimeoutOK bufs s0 (init_TimeoutOK hostArgs failArgs now s0 h0 hn)
 
 /-! ### over-long lines: `fgets` cuts the input into pieces of at most 255 bytes and loses nothing -/
 
@@ -918,4 +1182,5 @@ end Pm.RfCmd
 #print axioms Pm.RfCmd.init_inv
 #print axioms Pm.RfCmd.step_cont
 #print axioms Pm.RfCmd.step_Safe
+#print axioms Pm.RfCmd.reachable_TimeoutOK
 #print axioms Pm.RfCmd.fgetsSplit_spec
